@@ -198,7 +198,8 @@ func TestC05(t *testing.T) {
 		"cases = generated square (width × layout × every tail-padding amount for small widths, + empty block) × representation "+
 			"(in-memory, ODS file, ODS+Q4, Q4 deleted, wrappers, store recent cache / reopened / Q4 removed / serving cache, store.Getter) × "+
 			"every accessor method with arguments exhaustive for ODS width ≤ 4 (sampled above) incl. out-of-bounds; distinct = (square, representation); "+
-			"each case = one full read-equality battery against the reference square")
+			"each case = one full read-equality battery against the reference square; + concurrent part: rounds of 6 readers with pinned first operations "+
+			"over freshly opened file-backed representations (results compared with the reference; a round that never ends is decided by the stable-state oracle)")
 	defer run.Finish()
 	seed := vkit.Seed()
 	rng := vkit.NewRNG(seed, "C05")
@@ -301,6 +302,7 @@ func TestC05(t *testing.T) {
 	sem <- struct{}{}
 	go doSquare(len(cases), vkit.EmptySquare(), true, rng.Split("empty"))
 	wg.Wait()
+	c05concurrent(run, rng.Split("concurrent"), base)
 	run.Require("accessor_calls", 5000)
 	run.Require("getter_calls", 100)
 	run.Assume("reference = rsmt2d extension of the generated ODS; verification = shwap verifiers (their soundness is C01/C02)")
